@@ -25,7 +25,10 @@ def box_replay(ck, box, only):
         rc, out, err = ck.run([b, "trace", str(ck.seed), "300" if ck.quick else "3000", tr], timeout=900)
         s = ck.harness_output("box-trace-" + sp["flavour"], rc, out, err)
         if rc == 0:
-            ck.validate_trace("Trace_Coord", "Trace_Coord.cfg", tr, only + "/random-order-relations-" + sp["flavour"], n_traces=1, n_events=s.get("events", 0))
+            mine = ck.path("box-trace-%s-%s.ndjson" % (only, sp["flavour"]))     # only this property's events
+            with open(mine, "w") as f:
+                f.writelines(l for l in open(tr) if ('"e":"%sbox"' % only) in l)
+            ck.validate_trace("Trace_Coord", "Trace_Coord.cfg", mine, only + "/random-order-relations-" + sp["flavour"], n_traces=1, n_events=s.get("events", 0))
     cs = vf.read_ndjson(box)
     ck.sample({"case": [c for c in cs if c["n"] == 2 and not c["inside"] and c["x"][0] == -100][3]})
     ck.bound("coordinate_types", ["int", "unsigned", "size_t", "float", "double"])
